@@ -4,10 +4,10 @@
 //! `get_periodic_column_polys`, `TransitionConstraints::new` and `BoundaryConstraints::new` are
 //! reached through an `Air` / an `AirContext` in the real code.
 use winter_air::{
-    Air, AirContext, Assertion, BatchingMethod, EvaluationFrame, FieldExtension, ProofOptions,
-    TraceInfo, TransitionConstraintDegree,
+    Air, AirContext, Assertion, AuxRandElements, BatchingMethod, EvaluationFrame, FieldExtension,
+    ProofOptions, TraceInfo, TransitionConstraintDegree,
 };
-use winter_math::{ExtensibleField, FieldElement, StarkField, ToElements};
+use winter_math::{ExtensibleField, ExtensionOf, FieldElement, StarkField, ToElements};
 
 pub fn options(blowup: usize) -> ProofOptions {
     ProofOptions::new(1, blowup, 0, FieldExtension::None, 2, 1, BatchingMethod::Linear, BatchingMethod::Linear)
@@ -58,6 +58,18 @@ pub fn context<B: StarkField>(
     }
 }
 
+/// An assertion against the auxiliary segment, kept as base-field coordinates so that it can be
+/// rebuilt over whatever extension field `E` the caller works in.
+#[derive(Clone, Debug)]
+pub struct AuxAssertion<B: StarkField> {
+    pub kind: String,
+    pub col: usize,
+    pub first: usize,
+    pub stride: usize,
+    /// values, each as EXTENSION_DEGREE base coordinates, flattened
+    pub coords: Vec<B>,
+}
+
 #[derive(Clone)]
 pub struct ToyPub<B: StarkField> {
     pub context: AirContext<B>,
@@ -73,11 +85,23 @@ impl<B: StarkField> ToElements<B> for ToyPub<B> {
 pub struct ToyAir<B: StarkField> {
     context: AirContext<B>,
     periodic: Vec<Vec<B>>,
+    main_assertions: Vec<Assertion<B>>,
+    aux_assertions: Vec<AuxAssertion<B>>,
+    /// false: every transition constraint is identically zero;
+    /// true: constraint k is  periodic_k * current[0] + next[0]
+    transition_mode: bool,
 }
 
 impl<B: StarkField> ToyAir<B> {
+    /// one main column, constraint k = periodic_k * current[0] + next[0], the given assertions
+    pub fn with_transitions(context: AirContext<B>, periodic: Vec<Vec<B>>, main: Vec<Assertion<B>>) -> Self {
+        ToyAir { context, periodic, main_assertions: main, aux_assertions: vec![], transition_mode: true }
+    }
     pub fn from_parts(context: AirContext<B>, periodic: Vec<Vec<B>>) -> Self {
-        ToyAir { context, periodic }
+        ToyAir { context, periodic, main_assertions: vec![Assertion::single(0, 0, B::ZERO)], aux_assertions: vec![], transition_mode: false }
+    }
+    pub fn with_assertions(context: AirContext<B>, main: Vec<Assertion<B>>, aux: Vec<AuxAssertion<B>>) -> Self {
+        ToyAir { context, periodic: vec![], main_assertions: main, aux_assertions: aux, transition_mode: false }
     }
 }
 
@@ -86,7 +110,7 @@ impl<B: StarkField + ExtensibleField<2> + ExtensibleField<3>> Air for ToyAir<B> 
     type PublicInputs = ToyPub<B>;
 
     fn new(_trace_info: TraceInfo, pub_inputs: ToyPub<B>, _options: ProofOptions) -> Self {
-        ToyAir { context: pub_inputs.context, periodic: pub_inputs.periodic }
+        ToyAir::from_parts(pub_inputs.context, pub_inputs.periodic)
     }
 
     fn context(&self) -> &AirContext<B> {
@@ -95,17 +119,47 @@ impl<B: StarkField + ExtensibleField<2> + ExtensibleField<3>> Air for ToyAir<B> 
 
     fn evaluate_transition<E: FieldElement<BaseField = B>>(
         &self,
-        _frame: &EvaluationFrame<E>,
-        _periodic_values: &[E],
+        frame: &EvaluationFrame<E>,
+        periodic_values: &[E],
         result: &mut [E],
     ) {
+        for (k, r) in result.iter_mut().enumerate() {
+            *r = if self.transition_mode { periodic_values[k] * frame.current()[0] + frame.next()[0] } else { E::ZERO };
+        }
+    }
+
+    fn evaluate_aux_transition<F, E>(
+        &self,
+        _main_frame: &EvaluationFrame<F>,
+        _aux_frame: &EvaluationFrame<E>,
+        _periodic_values: &[F],
+        _aux_rand_elements: &AuxRandElements<E>,
+        result: &mut [E],
+    ) where
+        F: FieldElement<BaseField = B>,
+        E: FieldElement<BaseField = B> + ExtensionOf<F>,
+    {
         for r in result.iter_mut() {
             *r = E::ZERO;
         }
     }
 
     fn get_assertions(&self) -> Vec<Assertion<B>> {
-        vec![Assertion::single(0, 0, B::ZERO)]
+        self.main_assertions.clone()
+    }
+
+    fn get_aux_assertions<E: FieldElement<BaseField = B>>(&self, _aux_rand_elements: &AuxRandElements<E>) -> Vec<Assertion<E>> {
+        self.aux_assertions
+            .iter()
+            .map(|a| {
+                let vals: Vec<E> = E::slice_from_base_elements(&a.coords).to_vec();
+                match a.kind.as_str() {
+                    "single" => Assertion::single(a.col, a.first, vals[0]),
+                    "periodic" => Assertion::periodic(a.col, a.first, a.stride, vals[0]),
+                    _ => Assertion::sequence(a.col, a.first, a.stride, vals),
+                }
+            })
+            .collect()
     }
 
     fn get_periodic_column_values(&self) -> Vec<Vec<B>> {
